@@ -132,6 +132,37 @@ func e3Shards(c *Ctx, n int, run func(i int, col *shardCollector) *shardOut) []*
 	return outs
 }
 
+// e3Replay reads the scenario name and the recorded choice list of an E3 replay file.
+func e3Replay(c *Ctx) (scenario string, choices []int, ok bool) {
+	if c.Replay == "" {
+		return "", nil, false
+	}
+	b, err := os.ReadFile(c.Replay)
+	if err != nil {
+		return "", nil, false
+	}
+	var f struct {
+		Replay struct {
+			Scenario string `json:"scenario"`
+			Choices  string `json:"choices"`
+		} `json:"replay"`
+	}
+	if json.Unmarshal(b, &f) != nil || f.Replay.Choices == "" {
+		return "", nil, false
+	}
+	for _, t := range strings.Fields(strings.Trim(f.Replay.Choices, "[]")) {
+		n, err := strconv.Atoi(t)
+		if err != nil {
+			return "", nil, false
+		}
+		choices = append(choices, n)
+	}
+	if choices == nil {
+		choices = []int{}
+	}
+	return f.Replay.Scenario, choices, true
+}
+
 // e3Merge writes the common E3 evidence keys.
 func e3Merge(c *Ctx, outs []*shardOut, bound int) {
 	r := c.R
